@@ -659,6 +659,15 @@ class Traffic:
         def extract_binding(binding):
             return binding["tensor"], binding["rank"], binding["type"]
 
+        def remove_elem(next_evict, list_elem):
+            # Remove exactly this element (elements with the same next access
+            # and binding position compare equal)
+            i = next_evict.bisect_left(list_elem)
+            while next_evict[i] is not list_elem:
+                i += 1
+
+            del next_evict[i]
+
         def pin_intermediate_writes(info):
             return info + ("write",) in trace_fns
 
@@ -684,11 +693,9 @@ class Traffic:
             # Do not buffer if never used again
             if trace[num_ranks * 2 + 2] is None:
                 if obj in objs[tensor][type_]:
-                    if next_evict and next_evict[0].obj == obj:
-                        list_elem = next_evict.pop(0)
-                    else:
-                        assert obj in pinned[tensor][type_]
-                        list_elem = objs[tensor][type_][obj][1]
+                    list_elem = objs[tensor][type_][obj][1]
+                    if obj not in pinned[tensor][type_]:
+                        remove_elem(next_evict, list_elem)
 
                     list_elem.next_access = [float("inf")]
 
@@ -699,9 +706,10 @@ class Traffic:
                 return False, sim_info
 
             # If this element is in the cache, but not pinned
-            if next_evict and next_evict[0].obj == obj \
-                    and next_evict[0].pos == bind_pos:
-                list_elem = next_evict.pop(0)
+            if obj in objs[tensor][type_] \
+                    and obj not in pinned[tensor][type_]:
+                list_elem = objs[tensor][type_][obj][1]
+                remove_elem(next_evict, list_elem)
                 list_elem.next_access = next_access
 
                 next_evict.add(list_elem)
